@@ -8,6 +8,7 @@
     [old_flags]: the unchanged tree; [current_flags]: regenerated from ast.rs).
     What is outside the Coq statements (parser round trip, here-documents, quoting, behaviour) is
     decided on the code by execution: see props/c14.py. *)
+From Coq Require Import String.
 From BV Require Import Base.Prelude Base.Codec gen.C14TokTables Print.Tokenize Print.Show Print.Separation.
 
 (** generic: a well-separated sequence of valid print atoms tokenizes back to its lexemes *)
@@ -48,7 +49,7 @@ Print Assumptions c14_show_pipe_refuted.
 Theorem c14_nonvacuous :
   wf ex_redirs = true /\ wf ex_pipe = true /\ wf ex_plain = true /\ ok_cmd old_flags false ex_plain = true /\
   tokenize (show repaired_flags ex_redirs) = lexemes repaired_flags ex_redirs /\
-  show old_flags ex_redirs = (lit "{ " ++ [10] ++ lit "    echo a" ++ [10] ++ lit "}> f2>& 1")%N /\
-  show repaired_flags ex_redirs = (lit "{ " ++ [10] ++ lit "    echo a" ++ [10] ++ lit "} > f 2>& 1")%N.
+  show old_flags ex_redirs = (lit "{ "%string ++ [10] ++ lit "    echo a"%string ++ [10] ++ lit "}> f2>& 1"%string)%N /\
+  show repaired_flags ex_redirs = (lit "{ "%string ++ [10] ++ lit "    echo a"%string ++ [10] ++ lit "} > f 2>& 1"%string)%N.
 Proof. exact show_separates_examples. Qed.
 Print Assumptions c14_nonvacuous.
